@@ -130,10 +130,10 @@ Section RTU.
     is_line (uniprobe_line y c) /\ is_nil (trim (uniprobe_line y c)) = false /\
     (exists k, aindex A (fst c) = Some k) /\ snd c <> [] /\ forallb (wf_ftok parse_f32) (snd c) = true.
 
-  Lemma fill_fuel_ok : forall s blanks x y, Forall is_line blanks ->
-    concat s = x ++ enc_lines blanks ++ y -> length blanks < fill_fuel s.
+  Lemma fuel_ok_blanks : forall F s blanks x y, Forall is_line blanks ->
+    concat s = x ++ enc_lines blanks ++ y -> length (concat s) < F -> length blanks < F.
   Proof.
-    intros s blanks x y H E. unfold fill_fuel, stream_bytes. rewrite E. rewrite !app_length.
+    intros F s blanks x y H E HF. rewrite E in HF. rewrite !app_length in HF.
     pose proof (enc_lines_length blanks H). lia.
   Qed.
 
@@ -141,52 +141,58 @@ Section RTU.
   Proof. intros bs H. eapply Forall_impl; [|exact H]. intros a [Ha _]. exact Ha. Qed.
 
   (* the column loop, stopped by the next record's name line ... *)
-  Lemma u_columns_next : forall y cols fuel s acc blanks L rest,
+  Lemma u_columns_next : forall F y cols fuel s acc blanks L rest,
+    length (concat s) < F ->
     wf_stream s -> Forall (colgood y) cols -> Forall blank_line blanks ->
     is_line L -> is_nil (trim L) = false -> (exists k, ucol L = PErr k) ->
     concat s = enc_lines (map (uniprobe_line y) cols) ++ enc_lines blanks ++ utf8_encode L ++ rest ->
     length cols < fuel ->
-    exists s', u_columns A parse_f32 fuel [] false s acc
+    exists s', u_columns A parse_f32 F fuel [] false s acc
                = CDone (rev acc ++ parsed_cols A fval cols) L true s' /\ wf_stream s' /\ concat s' = rest.
   Proof.
-    intros y. induction cols as [|c cols IH]; intros fuel s acc blanks L rest Hwf Hc Hb HL Hne [kL EL] Ec Hf.
+    intros F y. induction cols as [|c cols IH]; intros fuel s acc blanks L rest HF Hwf Hc Hb HL Hne [kL EL] Ec Hf.
     - destruct fuel as [|fuel]; [cbn in Hf; lia|]. cbn [u_columns]. cbn [map] in Ec.
       change (enc_lines []) with (@nil N) in Ec. cbn [app] in Ec.
-      destruct (u_fill_lines blanks (fill_fuel s) s L rest Hwf Hb HL Hne Ec) as [s' [E [W Es]]].
-      { apply (fill_fuel_ok s blanks [] (utf8_encode L ++ rest)); [apply blank_lines_are_lines; exact Hb|exact Ec]. }
+      destruct (u_fill_lines blanks F s L rest Hwf Hb HL Hne Ec) as [s' [E [W Es]]].
+      { apply (fuel_ok_blanks F s blanks [] (utf8_encode L ++ rest)); [apply blank_lines_are_lines; exact Hb|exact Ec|exact HF]. }
       rewrite E. rewrite EL. exists s'. cbn [parsed_cols map]. rewrite app_nil_r. auto.
     - destruct fuel as [|fuel]; [cbn in Hf; lia|]. cbn [u_columns].
       inversion Hc as [|x l [HcL [HcN [[k Ek] [Hs Hw]]]] Hcs]; subst.
       cbn [map] in Ec. rewrite enc_lines_cons in Ec. rewrite <- app_assoc in Ec.
-      destruct (u_fill_lines [] (fill_fuel s) s (uniprobe_line y c) _ Hwf (Forall_nil _) HcL HcN Ec) as [s' [E [W Es]]].
-      { unfold fill_fuel. cbn [length]. lia. }
+      destruct (u_fill_lines [] F s (uniprobe_line y c) _ Hwf (Forall_nil _) HcL HcN Ec) as [s' [E [W Es]]].
+      { cbn [length]. lia. }
+      assert (length (concat s') < F) as HF2.
+      { rewrite Ec in HF. rewrite app_length in HF. rewrite Es. lia. }
       rewrite E. destruct (Hcol y c k [] Ek Hs Hw) as [n En]. rewrite app_nil_r in En. rewrite En.
-      destruct (IH fuel s' ((k, map fval (snd c)) :: acc) blanks L rest W Hcs Hb HL Hne (ex_intro _ kL EL) Es) as [s'' [E2 [W2 Es2]]].
+      destruct (IH fuel s' ((k, map fval (snd c)) :: acc) blanks L rest HF2 W Hcs Hb HL Hne (ex_intro _ kL EL) Es) as [s'' [E2 [W2 Es2]]].
       { cbn in Hf. lia. }
       exists s''. rewrite E2. split; [|auto]. f_equal. cbn [rev]. rewrite <- app_assoc. cbn [app].
       unfold parsed_cols. cbn [map]. rewrite Ek. reflexivity.
   Qed.
 
   (* ... or by the end of input *)
-  Lemma u_columns_eof : forall y cols fuel s acc blanks,
+  Lemma u_columns_eof : forall F y cols fuel s acc blanks,
+    length (concat s) < F ->
     wf_stream s -> Forall (colgood y) cols -> Forall blank_line blanks ->
     concat s = enc_lines (map (uniprobe_line y) cols) ++ enc_lines blanks ->
     length cols < fuel ->
-    u_columns A parse_f32 fuel [] false s acc = CDone (rev acc ++ parsed_cols A fval cols) [] false [].
+    u_columns A parse_f32 F fuel [] false s acc = CDone (rev acc ++ parsed_cols A fval cols) [] false [].
   Proof.
-    intros y. induction cols as [|c cols IH]; intros fuel s acc blanks Hwf Hc Hb Ec Hf.
+    intros F y. induction cols as [|c cols IH]; intros fuel s acc blanks HF Hwf Hc Hb Ec Hf.
     - destruct fuel as [|fuel]; [cbn in Hf; lia|]. cbn [u_columns]. cbn [map] in Ec.
       change (enc_lines []) with (@nil N) in Ec. cbn [app] in Ec.
-      rewrite (u_fill_eof blanks (fill_fuel s) s Hwf Hb Ec).
-      2: { apply (fill_fuel_ok s blanks [] []); [apply blank_lines_are_lines; exact Hb|]. rewrite app_nil_r. exact Ec. }
+      rewrite (u_fill_eof blanks F s Hwf Hb Ec).
+      2: { apply (fuel_ok_blanks F s blanks [] []); [apply blank_lines_are_lines; exact Hb| |exact HF]. rewrite app_nil_r. exact Ec. }
       destruct Hempty as [k Ek]. rewrite Ek. cbn [parsed_cols map]. rewrite app_nil_r. reflexivity.
     - destruct fuel as [|fuel]; [cbn in Hf; lia|]. cbn [u_columns].
       inversion Hc as [|x l [HcL [HcN [[k Ek] [Hs Hw]]]] Hcs]; subst.
       cbn [map] in Ec. rewrite enc_lines_cons in Ec. rewrite <- app_assoc in Ec.
-      destruct (u_fill_lines [] (fill_fuel s) s (uniprobe_line y c) _ Hwf (Forall_nil _) HcL HcN Ec) as [s' [E [W Es]]].
-      { unfold fill_fuel. cbn [length]. lia. }
+      destruct (u_fill_lines [] F s (uniprobe_line y c) _ Hwf (Forall_nil _) HcL HcN Ec) as [s' [E [W Es]]].
+      { cbn [length]. lia. }
+      assert (length (concat s') < F) as HF2.
+      { rewrite Ec in HF. rewrite app_length in HF. rewrite Es. lia. }
       rewrite E. destruct (Hcol y c k [] Ek Hs Hw) as [n En]. rewrite app_nil_r in En. rewrite En.
-      rewrite (IH fuel s' ((k, map fval (snd c)) :: acc) blanks W Hcs Hb Es) by (cbn in Hf; lia).
+      rewrite (IH fuel s' ((k, map fval (snd c)) :: acc) blanks HF2 W Hcs Hb Es) by (cbn in Hf; lia).
       f_equal. cbn [rev]. rewrite <- app_assoc. cbn [app].
       unfold parsed_cols. cbn [map]. rewrite Ek. reflexivity.
   Qed.
@@ -292,9 +298,9 @@ Section RTU.
       destruct c0 as [s0 t0]. cbn [width snd] in *. intros E. rewrite E in L. cbn in L. lia.
   Qed.
 
-  Definition filled_of (st : ustate) : fill_res :=
+  Definition filled_of (F : nat) (st : ustate) : fill_res :=
     if uline st then FLine (ubuf st) (ustream st)
-    else u_fill (fill_fuel (ustream st)) (ubuf st) (ustream st).
+    else u_fill F (ubuf st) (ustream st).
 
   Lemma col_lines_are_lines : forall p, goodp p -> Forall is_line (col_lines p).
   Proof.
@@ -305,13 +311,13 @@ Section RTU.
 
   (* what next() computes once the name line of a well-formed record is pending and the column
      loop has returned its columns *)
-  Lemma u_next_after_columns : forall p st s1 b' l' s',
-    goodp p -> filled_of st = FLine (name_line p) s1 ->
-    u_columns A parse_f32 (cols_fuel s1) [] false s1 [] = CDone (parsed_cols A fval (scols (snd p))) b' l' s' ->
-    u_next A parse_f32 false st = ({| ubuf := b'; uline := l'; ustream := s' |}, Ok (Some (spec_of p))).
+  Lemma u_next_after_columns : forall F p st s1 b' l' s',
+    goodp p -> filled_of F st = FLine (name_line p) s1 ->
+    u_columns A parse_f32 F F [] false s1 [] = CDone (parsed_cols A fval (scols (snd p))) b' l' s' ->
+    u_next A parse_f32 F false st = ({| ubuf := b'; uline := l'; ustream := s' |}, Ok (Some (spec_of p))).
   Proof.
-    intros p st s1 b' l' s' G Hf Hc. destruct (goodp_inv p G) as [Hn [Hd [Hne [Hdist [Hsw [_ Hrow]]]]]].
-    unfold u_next. fold (filled_of st). rewrite Hf.
+    intros F p st s1 b' l' s' G Hf Hc. destruct (goodp_inv p G) as [Hn [Hd [Hne [Hdist [Hsw [_ Hrow]]]]]].
+    unfold u_next. fold (filled_of F st). rewrite Hf.
     destruct (Hid (sid (snd p)) (fst p) Hn) as [n En]. unfold name_line. rewrite En. rewrite Hc.
     unfold u_build_matrix.
     pose proof (j16_build_matrix_spec A F32.zero fval (scols (snd p)) HA Hne Hdist Hsw) as Eb.
@@ -320,10 +326,10 @@ Section RTU.
     rewrite Eb. unfold freq_new. rewrite Hrow. unfold spec_of, record_of. rewrite Hd. reflexivity.
   Qed.
 
-  Lemma cols_fuel_ok : forall p s1 x, goodp p -> concat s1 = enc_lines (col_lines p) ++ x ->
-    length (scols (snd p)) < cols_fuel s1.
+  Lemma cols_fuel_ok : forall F p s1 x, goodp p -> concat s1 = enc_lines (col_lines p) ++ x ->
+    length (concat s1) < F -> length (scols (snd p)) < F.
   Proof.
-    intros p s1 x G E. unfold cols_fuel, stream_bytes. rewrite E, app_length.
+    intros F p s1 x G E HF. rewrite E, app_length in HF.
     pose proof (enc_lines_length (col_lines p) (col_lines_are_lines p G)) as L.
     unfold col_lines in L at 1. rewrite map_length in L. lia.
   Qed.
@@ -331,20 +337,22 @@ Section RTU.
   Definition enc_recs (rs : list (style * src)) : list N :=
     concat (map (fun q => utf8_encode (print_uniprobe q)) rs).
 
-  Lemma u_run_records : forall rs p fuel st s1,
-    goodp p -> Forall goodp rs -> filled_of st = FLine (name_line p) s1 -> wf_stream s1 ->
+  Lemma u_run_records : forall F rs p fuel st s1,
+    length (concat s1) < F ->
+    goodp p -> Forall goodp rs -> filled_of F st = FLine (name_line p) s1 -> wf_stream s1 ->
     concat s1 = enc_lines (col_lines p) ++ enc_lines (gap_lines p) ++ enc_recs rs ->
     length rs + 2 <= fuel ->
-    u_run A parse_f32 false fuel true st = map (fun q => Ok (Some (spec_of q))) (p :: rs) ++ [Ok None].
+    u_run A parse_f32 F false fuel true st = map (fun q => Ok (Some (spec_of q))) (p :: rs) ++ [Ok None].
   Proof.
-    induction rs as [|q rs IH]; intros p fuel st s1 G Gs Hf Hwf Ec Hfu.
+    intros F. induction rs as [|q rs IH]; intros p fuel st s1 HF G Gs Hf Hwf Ec Hfu.
     - destruct fuel as [|[|fuel]]; try (cbn in Hfu; lia).
+      destruct F as [|F']; [lia|].
       destruct (goodp_inv p G) as [_ [_ [_ [_ [_ [Hc _]]]]]].
       cbn [enc_recs map concat] in Ec. rewrite app_nil_r in Ec.
-      pose proof (u_columns_eof (fst p) (scols (snd p)) (cols_fuel s1) s1 [] (gap_lines p) Hwf Hc
-                    (gap_lines_ok p) Ec (cols_fuel_ok p s1 _ G Ec)) as Ecol.
+      pose proof (u_columns_eof (S F') (fst p) (scols (snd p)) (S F') s1 [] (gap_lines p) HF Hwf Hc
+                    (gap_lines_ok p) Ec (cols_fuel_ok (S F') p s1 _ G Ec HF)) as Ecol.
       cbn [rev app] in Ecol.
-      cbn [u_run]. rewrite (u_next_after_columns p st s1 [] false [] G Hf Ecol). reflexivity.
+      cbn [u_run]. rewrite (u_next_after_columns (S F') p st s1 [] false [] G Hf Ecol). reflexivity.
     - destruct fuel as [|fuel]; [cbn in Hfu; lia|].
       inversion Gs as [|x l Gq Grs]; subst.
       destruct (goodp_inv p G) as [_ [_ [_ [_ [_ [Hc _]]]]]].
@@ -355,13 +363,15 @@ Section RTU.
                           ++ (enc_lines (col_lines q) ++ enc_lines (gap_lines q) ++ enc_recs rs)) as Ec2.
       { rewrite Ec. unfold enc_recs. cbn [map concat]. rewrite print_uniprobe_lines.
         rewrite <- !app_assoc. reflexivity. }
-      destruct (u_columns_next (fst p) (scols (snd p)) (cols_fuel s1) s1 [] (gap_lines p) (name_line q) _
-                  Hwf Hc (gap_lines_ok p) Lq Nq (Hname _ _ Hnq) Ec2
-                  (cols_fuel_ok p s1 _ G Ec)) as [s2 [Ecol [W2 Es2]]].
+      destruct (u_columns_next F (fst p) (scols (snd p)) F s1 [] (gap_lines p) (name_line q) _
+                  HF Hwf Hc (gap_lines_ok p) Lq Nq (Hname _ _ Hnq) Ec2
+                  (cols_fuel_ok F p s1 _ G Ec HF)) as [s2 [Ecol [W2 Es2]]].
       cbn [rev app] in Ecol.
-      cbn [u_run]. rewrite (u_next_after_columns p st s1 _ true s2 G Hf Ecol).
+      cbn [u_run]. rewrite (u_next_after_columns F p st s1 _ true s2 G Hf Ecol).
       cbn [map app]. f_equal.
-      apply (IH q fuel _ s2 Gq Grs); [reflexivity|exact W2|exact Es2|cbn [length] in Hfu; lia].
+      assert (length (concat s2) < F) as HF2.
+      { rewrite Ec2 in HF. rewrite !app_length in HF. rewrite Es2. rewrite !app_length. lia. }
+      apply (IH q fuel _ s2 HF2 Gq Grs); [reflexivity|exact W2|exact Es2|cbn [length] in Hfu; lia].
   Qed.
 
   Lemma enc_recs_length : forall rs, Forall goodp rs -> length rs <= length (enc_recs rs).
@@ -385,10 +395,12 @@ Section RTU.
                          ++ (enc_lines (col_lines p) ++ enc_lines (gap_lines p) ++ enc_recs rs)) as Ec2.
       { rewrite Ec. unfold enc_recs. cbn [map concat]. rewrite print_uniprobe_lines.
         rewrite <- !app_assoc. reflexivity. }
-      destruct (u_fill_lines [] (fill_fuel s) s (name_line p) _ Hwf (Forall_nil _) Lp Np Ec2) as [s1 [E1 [W1 Es1]]].
-      { unfold fill_fuel. cbn [length]. lia. }
-      apply (u_run_records rs p _ (u_new s) s1 Gp Grs); [exact E1|exact W1|exact Es1|].
-      unfold stream_bytes. rewrite Ec. pose proof (enc_recs_length (p :: rs) G) as L. cbn [length] in L. lia.
+      destruct (u_fill_lines [] (read_fuel s) s (name_line p) _ Hwf (Forall_nil _) Lp Np Ec2) as [s1 [E1 [W1 Es1]]].
+      { unfold read_fuel. cbn [length]. lia. }
+      assert (length (concat s1) < read_fuel s) as HF1.
+      { unfold read_fuel, stream_bytes. rewrite Ec2. rewrite !app_length. rewrite Es1. rewrite !app_length. lia. }
+      apply (u_run_records (read_fuel s) rs p _ (u_new s) s1 HF1 Gp Grs); [exact E1|exact W1|exact Es1|].
+      unfold read_fuel, stream_bytes. rewrite Ec. pose proof (enc_recs_length (p :: rs) G) as L. cbn [length] in L. lia.
   Qed.
 
   (* ---------- blank lines before the first record ---------- *)
@@ -463,19 +475,23 @@ Section RTU.
     unfold uniprobe_read.
     destruct rs as [|p rs].
     - cbn [enc_recs map concat] in Ec. rewrite app_nil_r in Ec.
-      assert (length blanks < fill_fuel s) as Hf.
-      { apply (fill_fuel_ok s blanks [] []); [apply blank_lines_are_lines; exact Hb|]. rewrite app_nil_r. exact Ec. }
-      cbn [u_run]. unfold u_next. cbn [u_new uline ubuf ustream].
-      rewrite (u_fill_eof blanks (fill_fuel s) s Hwf Hb Ec Hf). reflexivity.
+      assert (length blanks < read_fuel s) as Hf.
+      { apply (fuel_ok_blanks (read_fuel s) s blanks [] []); [apply blank_lines_are_lines; exact Hb| |].
+        - rewrite app_nil_r. exact Ec.
+        - unfold read_fuel, stream_bytes. lia. }
+      remember (read_fuel s) as F eqn:EF. unfold read_fuel in EF. rewrite EF at 2. cbn [u_run]. unfold u_next. cbn [u_new uline ubuf ustream].
+      rewrite (u_fill_eof blanks F s Hwf Hb Ec Hf). reflexivity.
     - inversion G as [|x l Gp Grs]; subst.
       destruct (goodp_inv p Gp) as [Hn _]. destruct (name_line_ok _ (fst p) Hn) as [Lp Np].
       assert (concat s = enc_lines blanks ++ utf8_encode (name_line p)
                          ++ (enc_lines (col_lines p) ++ enc_lines (gap_lines p) ++ enc_recs rs)) as Ec2.
       { rewrite Ec. unfold enc_recs. cbn [map concat]. rewrite print_uniprobe_lines.
         rewrite <- !app_assoc. reflexivity. }
-      destruct (u_fill_lines blanks (fill_fuel s) s (name_line p) _ Hwf Hb Lp Np Ec2) as [s1 [E1 [W1 Es1]]].
-      { apply (fill_fuel_ok s blanks [] _ (blank_lines_are_lines _ Hb) Ec2). }
-      apply (u_run_records rs p _ (u_new s) s1 Gp Grs); [exact E1|exact W1|exact Es1|].
-      unfold stream_bytes. rewrite Ec, app_length. pose proof (enc_recs_length (p :: rs) G) as L. cbn [length] in L. lia.
+      destruct (u_fill_lines blanks (read_fuel s) s (name_line p) _ Hwf Hb Lp Np Ec2) as [s1 [E1 [W1 Es1]]].
+      { apply (fuel_ok_blanks (read_fuel s) s blanks [] _ (blank_lines_are_lines _ Hb) Ec2). unfold read_fuel, stream_bytes. lia. }
+      assert (length (concat s1) < read_fuel s) as HF1.
+      { unfold read_fuel, stream_bytes. rewrite Ec2. rewrite !app_length. rewrite Es1. rewrite !app_length. lia. }
+      apply (u_run_records (read_fuel s) rs p _ (u_new s) s1 HF1 Gp Grs); [exact E1|exact W1|exact Es1|].
+      unfold read_fuel, stream_bytes. rewrite Ec, app_length. pose proof (enc_recs_length (p :: rs) G) as L. cbn [length] in L. lia.
   Qed.
 End RTU.
